@@ -1,6 +1,7 @@
 package openapi
 
 import (
+	"encoding/base64"
 	"encoding/json"
 	"fmt"
 	"reflect"
@@ -432,11 +433,79 @@ func ToStringMap(val any) any {
 // (boolean, float and untyped keys, e.g. the example computed for
 // MapOf(Boolean, String)) are replaced with maps indexed by the string
 // representation of the keys. Values that can be encoded are returned as is.
+//
+// The result also has the form that encoding/json gives it so that the YAML
+// rendering of the specification shows the same data: the YAML encoder renders
+// []byte values as sequences of integers (base64 text in JSON) and nil maps
+// and slices as {} and [] (null in JSON).
 func ToJSONExample(val any) any {
-	if val == nil || !hasNonJSONKey(reflect.ValueOf(val)) {
+	if val == nil {
 		return val
 	}
-	return stringifyKeys(reflect.ValueOf(val))
+	if hasNonJSONKey(reflect.ValueOf(val)) {
+		val = stringifyKeys(reflect.ValueOf(val))
+	}
+	res, _ := jsonForm(reflect.ValueOf(val))
+	return res
+}
+
+var anyType = reflect.TypeOf((*any)(nil)).Elem()
+
+// jsonForm returns v with the []byte values replaced with their base64
+// encoding and the nil maps and slices replaced with nil. The second result is
+// false if v is returned unchanged.
+func jsonForm(v reflect.Value) (any, bool) {
+	switch v.Kind() {
+	case reflect.Invalid:
+		return nil, false
+	case reflect.Interface, reflect.Ptr:
+		if v.IsNil() {
+			return v.Interface(), false
+		}
+		if res, changed := jsonForm(v.Elem()); changed {
+			return res, true
+		}
+	case reflect.Slice:
+		if v.IsNil() {
+			return nil, true
+		}
+		if v.Type().Elem().Kind() == reflect.Uint8 {
+			return base64.StdEncoding.EncodeToString(v.Bytes()), true
+		}
+		var (
+			res     = make([]any, v.Len())
+			changed bool
+		)
+		for i := range res {
+			elem, ch := jsonForm(v.Index(i))
+			res[i] = elem
+			changed = changed || ch
+		}
+		if changed {
+			return res, true
+		}
+	case reflect.Map:
+		if v.IsNil() {
+			return nil, true
+		}
+		var (
+			res     = reflect.MakeMapWithSize(reflect.MapOf(v.Type().Key(), anyType), v.Len())
+			changed bool
+		)
+		for iter := v.MapRange(); iter.Next(); {
+			elem, ch := jsonForm(iter.Value())
+			val := reflect.New(anyType).Elem()
+			if elem != nil {
+				val.Set(reflect.ValueOf(elem))
+			}
+			res.SetMapIndex(iter.Key(), val)
+			changed = changed || ch
+		}
+		if changed {
+			return res.Interface(), true
+		}
+	}
+	return v.Interface(), false
 }
 
 // hasNonJSONKey returns true if v is or contains a map that encoding/json
